@@ -6,7 +6,7 @@ use crate::elem::{self, bits_eq, first_diff, Elem, Fx};
 use crate::oracle::{self, bound, C64};
 use crate::prng::{Hasher64, Rng};
 use crate::program::*;
-use crate::sched::{self, Policy, Sched, SchedReport, SimAbort, SimMutex};
+use crate::sched::{self, Policy, Sched, SchedReport, SimAbort, SimMutex, StepBudget};
 use crate::world::{self, AnyPlanner, Dir, PK};
 use num_complex::Complex;
 use rustfft::Fft;
@@ -42,9 +42,22 @@ pub fn panic_msg(p: &Box<dyn Any + Send>) -> String {
         s.to_string()
     } else if let Some(s) = p.downcast_ref::<String>() {
         s.clone()
+    } else if p.downcast_ref::<StepBudget>().is_some() {
+        "rfsim: call exceeded its scheduling-step allowance (does not terminate?)".into()
     } else {
         "<non-string panic payload>".into()
     }
+}
+
+/// Generous bound on the scheduling points one call over `elems` elements may pass (each point precedes the
+/// processing of at least one chunk at some nesting level): used where no measured reference count exists.
+pub fn step_allowance(elems: usize) -> u64 {
+    let n = elems as u64 + 64;
+    10_000 + 64 * n * (64 - n.leading_zeros() as u64)
+}
+
+thread_local! {
+    static LAST_REF_STEPS: std::cell::Cell<u64> = const { std::cell::Cell::new(0) };
 }
 
 pub type Inst<T> = Arc<dyn Fft<T>>;
@@ -161,6 +174,8 @@ pub fn advertised<T: Elem>(fft: &Inst<T>, entry: Entry) -> usize {
 /// zeroed exact-length scratch on ordinary heap buffers. Err(msg) when it panics.
 pub fn isolated_call<T: Elem>(fft: &Inst<T>, entry: Entry, input: &[Complex<T>]) -> Result<Vec<Complex<T>>, String> {
     sched::suspended(|| {
+        let c0 = sched::hook_count();
+        sched::set_step_allowance(Some(step_allowance(2 * input.len() + advertised(fft, entry))));
         let r = catch_unwind(AssertUnwindSafe(|| {
             let zero = c::<T>(0.0, 0.0);
             match entry {
@@ -190,6 +205,8 @@ pub fn isolated_call<T: Elem>(fft: &Inst<T>, entry: Entry, input: &[Complex<T>])
                 }
             }
         }));
+        sched::set_step_allowance(None);
+        LAST_REF_STEPS.with(|l| l.set(sched::hook_count() - c0));
         r.map_err(|p| {
             if p.downcast_ref::<SimAbort>().is_some() {
                 std::panic::resume_unwind(p)
@@ -248,6 +265,10 @@ impl<T: Elem> World<T> {
             self.count(&format!("incidental.{}", class), 1);
         }
     }
+    /// read-only mapping of immutable inputs: part of the C15 and C03 oracles (an mprotect pair per call elsewhere buys nothing)
+    fn ro_props(&self) -> bool {
+        matches!(self.case.prop.as_str(), "C15" | "C03" | "C13")
+    }
     fn is(&self, p: &str) -> bool {
         self.case.prop == p
     }
@@ -276,12 +297,14 @@ impl<T: Elem> World<T> {
             inbuf.protect_ro();
         }
         self.set_inside(t, Some(inst_id));
+        sched::set_step_allowance(Some(step_allowance(2 * p.input.len() + p.out_len + p.scratch_len + advertised(fft, p.entry))));
         let r = catch_unwind(AssertUnwindSafe(|| match p.entry {
             Entry::Process => fft.process(inbuf.as_mut()),
             Entry::InPlace => fft.process_with_scratch(inbuf.as_mut(), scratch.as_mut()),
             Entry::OutOfPlace => fft.process_outofplace_with_scratch(inbuf.as_mut(), outbuf.as_mut(), scratch.as_mut()),
             Entry::Immut => fft.process_immutable_with_scratch(inbuf.as_ref(), outbuf.as_mut(), scratch.as_mut()),
         }));
+        sched::set_step_allowance(None);
         self.set_inside(t, None);
         if p.ro_input {
             inbuf.protect_rw();
@@ -405,7 +428,7 @@ impl<T: Elem> World<T> {
             InstRef::Shared(i) => *i as u32,
             InstRef::Local(i) => 1000 + t.tid as u32 * 100 + *i as u32,
         };
-        let ro = *entry == Entry::Immut && cfg!(not(miri));
+        let ro = *entry == Entry::Immut && cfg!(not(miri)) && self.ro_props();
         let res = self.real_call(
             t,
             &fft,
@@ -486,7 +509,7 @@ impl<T: Elem> World<T> {
     /// One call with arbitrary shape; returns (panicked, output-or-msg)
     #[allow(clippy::too_many_arguments)]
     fn shaped_call(&self, t: &mut TCtx<T>, fft: &Inst<T>, entry: Entry, input: &[Complex<T>], out_len: usize, scratch_len: usize, place: Place, inst_id: u32) -> CallRes<T> {
-        let ro = entry == Entry::Immut && cfg!(not(miri));
+        let ro = entry == Entry::Immut && cfg!(not(miri)) && self.ro_props();
         self.real_call(t, fft, CallParams { entry, input, out_len, scratch_len, scratch_fill: Fill::Zero, out_fill: Fill::Zero, place, ro_input: ro }, inst_id)
     }
 
@@ -632,7 +655,7 @@ impl<T: Elem> World<T> {
                     // exact-length scratch always ends on a guard page
                     let place = if li == 0 { Place::Right } else { crate::arena::PLACES[pi % 4] };
                     pi += 1;
-                    let ro = *entry == Entry::Immut && cfg!(not(miri));
+                    let ro = *entry == Entry::Immut && cfg!(not(miri)) && self.ro_props();
                     let res = self.real_call(t, &fft, CallParams { entry: *entry, input: &x, out_len: total, scratch_len: sl, scratch_fill: sf, out_fill: of, place, ro_input: ro }, 0);
                     self.count("op.grid-call", 1);
                     if li > 0 {
@@ -690,7 +713,7 @@ impl<T: Elem> World<T> {
         let what = format!("{:?} n={} k={} keep={} fill={:?}", entry, n, k, keep, fill);
         let Ok(b) = isolated_call(&fft, *entry, &benign) else { return };
         let adv = advertised(&fft, *entry);
-        let ro = *entry == Entry::Immut && cfg!(not(miri));
+        let ro = *entry == Entry::Immut && cfg!(not(miri)) && self.ro_props();
         let res = self.real_call(t, &fft, CallParams { entry: *entry, input: &poisoned, out_len: total, scratch_len: adv, scratch_fill: Fill::Zero, out_fill: Fill::Zero, place: Place::Right, ro_input: ro }, 0);
         self.count("fault.neighbour.poison", 1);
         self.check_memory(t, &res, &what);
@@ -732,12 +755,14 @@ impl<T: Elem> World<T> {
         let data: &mut [Complex<T>] = unsafe { std::slice::from_raw_parts_mut(dp.add(i * n), n) };
         let out: &mut [Complex<T>] = unsafe { std::slice::from_raw_parts_mut(op_.add(i * n), n) };
         self.set_inside(t, Some(*buf as u32 + 500));
+        sched::set_step_allowance(Some(step_allowance(2 * n + adv)));
         let r = catch_unwind(AssertUnwindSafe(|| match entry {
             Entry::Process => fft.process(data),
             Entry::InPlace => fft.process_with_scratch(data, scratch.as_mut()),
             Entry::OutOfPlace => fft.process_outofplace_with_scratch(data, out, scratch.as_mut()),
             Entry::Immut => fft.process_immutable_with_scratch(data, out, scratch.as_mut()),
         }));
+        sched::set_step_allowance(None);
         self.set_inside(t, None);
         self.count("op.split-chunk", 1);
         match r {
@@ -765,7 +790,9 @@ impl<T: Elem> World<T> {
         let mut out = GBuf::<T>::new(total, Place::Left);
         let mut scratch = GBuf::<T>::new(adv, Place::Right);
         self.set_inside(t, Some(*buf as u32 + 600));
+        sched::set_step_allowance(Some(step_allowance(2 * total + adv)));
         let r = catch_unwind(AssertUnwindSafe(|| fft.process_immutable_with_scratch(sb.data.as_ref(), out.as_mut(), scratch.as_mut())));
+        sched::set_step_allowance(None);
         self.set_inside(t, None);
         self.count("op.shared-immut", 1);
         match r {
@@ -907,7 +934,7 @@ impl<T: Elem> World<T> {
         let adv = advertised(&fft, *entry);
         let what = format!("{:?} n={} k={} crash at arithmetic op {}/{}", entry, n, k, at, ops);
         elem::fx_arm(at);
-        let ro = *entry == Entry::Immut && cfg!(not(miri));
+        let ro = *entry == Entry::Immut && cfg!(not(miri)) && self.ro_props();
         let res = self.real_call(t, &fft, CallParams { entry: *entry, input: &x, out_len: total, scratch_len: adv, scratch_fill: Fill::Zero, out_fill: Fill::Zero, place: Place::Right, ro_input: ro }, 0);
         elem::fx_disarm();
         self.check_memory(t, &res, &what);
@@ -992,6 +1019,11 @@ impl<T: Elem> World<T> {
             Op::Poison { .. } => self.exec_poison(t, op),
             Op::SharedImmut { .. } => self.exec_shared_immut(t, op),
             Op::HostCheck => self.exec_hostcheck(t),
+        }
+        // bounded liveness: a call that passed more scheduling points than any terminating call of its size can
+        let hits = sched::take_budget_hits();
+        if hits > 0 {
+            self.report(t, "liveness.step-budget", format!("{} call(s) in op {} exceeded the scheduling-step allowance for their size: the call does not terminate", hits, op_name(op)));
         }
         // C13: the simulator's stand-in for SIGILL on a lesser CPU
         let above = rustfft::verif_hooks::take_above_host();
